@@ -197,11 +197,9 @@ impl QueryVisitor {
                                         Range::Value(lv),
                                         Range::Value(rv),
                                         Range::Comparison(rc),
-                                    ) => match (lc, rc) {
-                                        (Comparison::Gte, Comparison::Lte) => (true, lv, rv, true),
-                                        (Comparison::Gt, Comparison::Lt) => (false, lv, rv, false),
-                                        _ => panic!("invalid range comparison"),
-                                    },
+                                    // Either bound can be inclusive or exclusive on its own
+                                    // (`[1 TO 2}`), as in Lucene.
+                                    ) => (lc == Comparison::Gte, lv, rv, rc == Comparison::Lte),
                                     _ => panic!("invalid range value"),
                                 };
 
